@@ -107,6 +107,18 @@ CHECKS = {
     text='Stateful model-based testing over generated manifests (hostile strings) and request sequences interleaved with job completions; jobs created, the file each is built from, queue / current / background state, stop requests per job, escaped strings handed to templates, default path/title and status/capture rendering are compared with the model after every step.',
     design='DESIGN.md section 3, C20',
     note='Flask and Jinja are not installed: flask is stubbed and escaping is asserted at construction of the script controls. Thread interleavings are out of scope here (C08/C09).'),
+ 'C08': dict(
+    technique='schedule exploration on a deterministic thread scheduler (real threads, one runnable at a time, yield before every source line of job_control.py and at every lock/thread operation): Hypothesis-generated scenarios x schedules, plus exhaustive enumeration of all schedules with <= 1 (quick) / <= 2 (thorough) preemptions for fixed scenarios; history checked by a Wing-Gong linearisability search against a deque model and invariants',
+    category='exploration',
+    text='The scheduler owns every thread switch, so interleavings between the individual statements of the controller are generated, enumerated for small scenarios, and replayable. Mutual exclusion, start order (linearisable w.r.t. add/insert), exactly-once, drain at quiescence, is_running observations, deadlock and lost wake-ups are checked on every explored schedule.',
+    design='DESIGN.md sections 2.6 and 3, C08',
+    note='Switches at source-line granularity in job_control.py and at shim calls (threading.Thread/RLock/Event, time); CPython byte-code level races inside one line are out of reach. Shims model RLock/Event/Thread/sleep as bardolph uses them.'),
+ 'C09': dict(
+    technique='schedule exploration on the deterministic scheduler over the real JobControl / ScriptJob / Machine / lib.clock.Clock in virtual time: Hypothesis-generated scenarios (script shape, stop kind, stop moment, tick, device work) x schedules (step preemptions, choices, line-conditioned switches); bounded-liveness and device-log oracle',
+    category='exploration',
+    text='Stops are delivered before the run loop, between instructions, inside delays, inside time-of-day waits and as the script finishes, under generated and (thorough) enumerated single preemptions; each run is checked for promptness in virtual time, at most one further command, the fate of the next / queued / re-queued job, and for deadlock or a lost stop (step limit).',
+    design='DESIGN.md sections 2.6 and 3, C09',
+    note='"Promptly" is bounded liveness (two ticks + command in progress, step budget). One open finding is recorded and excluded by construction: a stop that arrives before the job thread has entered the run loop is lost.'),
 }
 PENDING_REASON = 'check not built yet in this session; planned as described in DESIGN.md (property-based / fuzzing check, same runner)'
 
